@@ -24,7 +24,9 @@ RULE = ("formula strings of the grammar E/T/F (random nesting <=3, random whites
         "{0,±1,±2,3,±4,8,±1/2,1/4,...} (4%: tiny non-zero magnitudes 2^-40, 1±2^-40) so that sub-expressions and divisors hit 0 "
         "or come close to it, some inputs missing; a staggered-start family (>=3 streams, >=2 of them holding a backlog of the "
         "same older timestamps when the engine starts, values encoding (stream, timestamp): every emitted value must be the "
-        "expression over the inputs stamped with the emitted timestamp); clip trees (push_clipper); thorough adds every "
+        "expression over the inputs stamped with the emitted timestamp); clip trees (push_clipper); build HISTORIES of the composition API (a builder that was built is composed further — every "
+        "operator/method, as left and as right operand, several levels — and built again; built twice; derived built before the "
+        "original: the judged engine must compute the tree of the builder it was built from); thorough adds every "
         "operator sequence x every parenthesisation with <=4 operators over 3 ids.  non-trivial = >=2 operators of >=2 "
         "kinds; distinct by canonical JSON hash of the case incl. its rounds")
 
@@ -92,6 +94,7 @@ def run(ctx: Ctx) -> None:
     cases += gen_cases(ctx, n, p_missing=0.06, per_id_flags=0.2)
     # staggered start (streams with backlogs of older samples), tiny non-zero divisors, clip steps
     cases += g.backlog_cases(ctx, max(60, n // 40))
+    cases += g.build_history_cases(ctx, max(80, n // 30))
     cases += g.tiny_cases()
     cases += g.gen_clip_cases(ctx, max(60, n // 40), p_missing=0.06)
     # bounded-exhaustive small scope: all of it in the thorough tier, a slice of it in the quick tier
